@@ -115,6 +115,30 @@ def edit_cases():
     mo2 = copy.deepcopy(mo)
     mo2["workplaces"][1]["facilities"].append(mo2["workplaces"][0]["facilities"].pop(0))
     out.append((mo, mo2, "move-facility-out"))
+    # the availability helper called by hand at a stop for the current step, and only then that step entered into a free worker's calendar
+    for k in (1, 2):
+        bh = {"tasks": [{"name": "T0", "work": float(k)}, {"name": "T1", "work": 2.0}], "links": [[0, 1, "FS"]],
+              "teams": [{"name": "TM0", "targets": [0, 1], "workers": [{"name": "W0", "skills": {"T0": 1.0}, "cost": 1.0}, {"name": "W1", "skills": {"T1": 1.0}, "cost": 1.0}, {"name": "W2", "skills": {"T1": 0.5}, "cost": 1.0}]}]}
+        bh2 = copy.deepcopy(bh)
+        bh2["teams"][0]["workers"][1]["absence"] = [k]
+        out.append((bh, bh2, "byhand-check-then-absent-%d" % k))
+    # a new top-level component (with a task of its own) appended to the product at a stop; it needs the one-slot shop after C0
+    ac = {"tasks": [{"name": "T0", "work": 3.0, "nf": True}, {"name": "T1", "work": 2.0, "nf": True}], "links": [], "components": [{"name": "C0", "tasks": [0], "space": 1.0}, {"name": "C1", "tasks": [1], "space": 1.0}],
+          "workplaces": [{"name": "WP0", "cap": 1.0, "targets": [0, 1], "facilities": [{"name": "F0", "skills": {"T0": 1.0, "T1": 1.0, "T2": 1.0}, "cost": 1.0}]}],
+          "teams": [{"name": "TM0", "targets": [0, 1], "workers": [{"name": "W0", "skills": {"T0": 1.0, "T1": 1.0, "T2": 1.0}, "fskills": {"F0": 1.0}, "cost": 1.0}]}]}
+    ac2 = copy.deepcopy(ac)
+    ac2["tasks"].append({"name": "T2", "work": 1.0, "nf": True})
+    ac2["components"].append({"name": "CN", "tasks": [2], "space": 1.0})
+    ac2["workplaces"][0]["targets"] = [0, 1, 2]
+    ac2["teams"][0]["targets"] = [0, 1, 2]
+    out.append((ac, ac2, "add-component"))
+    # a running machine task taken off its workplace's list at a stop (only a finished task stays listed); the machine finishes what it holds
+    ut = {"tasks": [{"name": "T0", "work": 6.0, "nf": True}, {"name": "T1", "work": 1.0, "nf": True}], "links": [], "components": [{"name": "C0", "tasks": [0], "space": 1.0}, {"name": "C1", "tasks": [1], "space": 1.0}],
+          "workplaces": [{"name": "WP0", "cap": 2.0, "targets": [0, 1], "facilities": [{"name": "F0", "skills": {"T0": 1.0}, "cost": 7.0}, {"name": "F1", "skills": {"T1": 1.0}, "cost": 3.0}]}],
+          "teams": [{"name": "TM0", "targets": [0, 1], "workers": [{"name": "W0", "skills": {"T0": 1.0}, "fskills": {"F0": 1.0}, "cost": 1.0}, {"name": "W1", "skills": {"T1": 1.0}, "fskills": {"F1": 1.0}, "cost": 2.0}]}]}
+    ut2 = copy.deepcopy(ut)
+    ut2["workplaces"][0]["targets"] = [1]
+    out.append((ut, ut2, "untarget-running-task"))
     # rates agreed at a stop: nobody in the team / workplace is paid at the start; the second task's worker and machine get their rates before that task begins
     rz = {"tasks": [{"name": "T0", "work": 4.0}, {"name": "T1", "work": 3.0, "nf": True}], "links": [[0, 1, "FS"]], "components": [{"name": "C0", "tasks": [1]}],
           "workplaces": [{"name": "WP0", "cap": 1.0, "targets": [1], "facilities": [{"name": "F0", "skills": {"T1": 1.0}, "cost": 0.0}]}],
@@ -200,6 +224,35 @@ def apply_edit(m, name):
         f = m.byname["F1"]
         m.byname["WP0"].facility_list.remove(f)
         m.byname["WP1"].add_facility(f)
+    elif name.startswith("byhand-check-then-absent-"):
+        k = int(name.rsplit("-", 1)[1])
+        m.project.organization.check_update_state_from_absence_time_list(m.project.time)  # (a user looking at who is available right now)
+        m.byname["W1"].absence_time_list.append(k)
+    elif name == "add-component":
+        t = type(m.byname["T0"])("T2", ID="T2", default_work_amount=1.0, need_facility=True)
+        t._vh = 50
+        c = type(m.byname["C0"])("CN", ID="CN", space_size=1.0)
+        c._vh = 150
+        c.append_targeted_task(t)
+        m.project.workflow.append_child_task(t)
+        m.project.product.append_child_component(c)
+        m.byname["WP0"].append_targeted_task(t)
+        m.byname["TM0"].append_targeted_task(t)
+        m.tasks.append(t)
+        m.components.append(c)
+        m.byname["T2"] = t
+        m.byname["CN"] = c
+        # (the newcomers get one placeholder entry per step already simulated, as a user does who wants every log to start at step 0)
+        k_ = m.project.time
+        t.state_record_list = [t.state] * k_
+        t.remaining_work_amount_record_list = [t.remaining_work_amount] * k_
+        t.allocated_worker_id_record = [[] for _ in range(k_)]
+        t.allocated_facility_id_record = [[] for _ in range(k_)]
+        c.state_record_list = [c.state] * k_
+        c.placed_workplace_id_record = [None] * k_
+    elif name == "untarget-running-task":
+        m.byname["WP0"].targeted_task_list.remove(m.byname["T0"])
+        m.byname["T0"].allocated_workplace_list.remove(m.byname["WP0"])
     elif name == "set-rates":
         m.byname["W1"].cost_per_time = 8.0
         m.byname["F0"].cost_per_time = 5.0
